@@ -10,6 +10,7 @@ import Driver.Tm
 import Driver.Lm
 import Driver.Lk
 import Driver.Mi
+import Driver.Rb
 /-! `driver <suite>`: reads a transcript on stdin, prints the model's `obs` line for every `op` line. -/
 
 partial def loopSrv (h : IO.FS.Stream) (out : IO.FS.Stream) (st : Driver.Srv.St) : IO Unit := do
@@ -93,6 +94,15 @@ partial def loopMi (h : IO.FS.Stream) (out : IO.FS.Stream) (st : Driver.Mi.St) :
   | none => pure ()
   loopMi h out st'
 
+partial def loopRb (h : IO.FS.Stream) (out : IO.FS.Stream) (st : Driver.Rb.St) : IO Unit := do
+  let line ← h.getLine
+  if line.isEmpty then return ()
+  let (st', o) := Driver.Rb.handle st line
+  match o with
+  | some l => out.putStrLn l
+  | none => pure ()
+  loopRb h out st'
+
 partial def loopStateless (h : IO.FS.Stream) (out : IO.FS.Stream) (f : String → Option String) : IO Unit := do
   let line ← h.getLine
   if line.isEmpty then return ()
@@ -114,6 +124,7 @@ def main (args : List String) : IO UInt32 := do
   | ["limits"] => loopLm stdin stdout { maxConn := 0, inflight := 0, conns := [] }; return 0
   | ["timers"] => loopTm stdin stdout {}; return 0
   | ["micro"] => loopMi stdin stdout {}; return 0
+  | ["readers"] => loopRb stdin stdout {}; return 0
   | ["s2m"] => loopStateless stdin stdout Driver.Sm.handle; return 0
   | ["codec"] => loopStateless stdin stdout Driver.Cd.handle; return 0
   | ["writer"] => loopStateless stdin stdout Driver.Wr.handle; return 0
